@@ -103,6 +103,36 @@ func CommentEdits(r *rand.Rand, src []byte, n int, kinds []string, idBase int) [
 				continue
 			}
 			edits = append(edits, Edit{Off: off, Text: " //" + id, Kind: kind})
+		case "hang":
+			// an own-line comment at the end of a block / clause body: before a line that starts
+			// with case, default or a closing brace, indented like the line above it
+			var cands []int
+			for li := 1; li < len(lineStarts); li++ {
+				ls := lineStarts[li]
+				e := bytes.IndexByte(src[ls:], '\n')
+				if e < 0 {
+					continue
+				}
+				t := bytes.TrimLeft(src[ls:ls+e], "\t ")
+				if bytes.HasPrefix(t, []byte("case ")) || bytes.HasPrefix(t, []byte("default:")) || bytes.HasPrefix(t, []byte("}")) {
+					cands = append(cands, li)
+				}
+			}
+			if len(cands) == 0 {
+				continue
+			}
+			li := cands[r.Intn(len(cands))]
+			ls := lineStarts[li]
+			if inside(ls) {
+				continue
+			}
+			prev := lineStarts[li-1]
+			pl := src[prev : ls-1]
+			ind := pl[:len(pl)-len(bytes.TrimLeft(pl, "\t"))]
+			if len(bytes.TrimSpace(pl)) == 0 {
+				continue
+			}
+			edits = append(edits, Edit{Off: ls, Text: string(ind) + "//" + id + "\n", Kind: kind})
 		case "own", "blank", "ownblk", "mlblk":
 			ls := lineStarts[r.Intn(len(lineStarts))]
 			if inside(ls) {
